@@ -41,7 +41,7 @@ func vfGenC12(t *rapid.T) vfCaseC12 {
 	n := rapid.IntRange(1, 20).Draw(t, "ncalls")
 	lens := []int{0, 1, 2, mp - 1, mp, mp + 1, 2 * mp, 2*mp + 1, 3*mp + 2}
 	for i := 0; i < n; i++ {
-		m := rapid.SampledFrom([]string{"Read", "Read", "Write", "Write", "ReadAt", "WriteAt", "ReadFrom", "WriteTo", "Seek", "Seek", "Seek", "Truncate", "Stat", "Close"}).Draw(t, "m")
+		m := rapid.SampledFrom([]string{"Read", "Read", "Write", "Write", "ReadAt", "WriteAt", "ReadFrom", "WriteTo", "Seek", "Seek", "Seek", "Truncate", "Stat", "Close", "Repath"}).Draw(t, "m")
 		if m == "Close" && rapid.IntRange(0, 2).Draw(t, "really") != 0 {
 			m = "Seek"
 		}
@@ -257,6 +257,14 @@ func vfRunC12(ctx *vfCtx, c vfCaseC12) {
 					model = append(model, 0)
 				}
 				model = model[:call.Off]
+			case "Repath":
+				// Not a File method: on the server the name the File was opened under now denotes another file
+				// of another size (renamed away and replaced). An open File, like an os.File, keeps referring to
+				// the file it opened - for Stat and for end-relative seeks too (seed F01).
+				s.peer.mu.Lock()
+				s.peer.fs["/t"] = &vfNode{Kind: "file", Data: make([]byte, len(model)/2+3), Perm: 0o600, Mtime: 1, Atime: 1}
+				s.peer.mu.Unlock()
+				return
 			case "Stat":
 				fi, err := f.Stat()
 				if closed {
